@@ -183,6 +183,7 @@ pub const REQUIRED: &[&str] = &[
     "every_prefix",
     "backref_before_start_at_token_0",
     "backref_before_start_later",
+    "backref_before_start_at_window_edge",
     "all_type_bytes",
     "short_inputs",
     "random_bytes",
@@ -304,7 +305,8 @@ pub fn run(cx: &mut Ctx) {
     cx.case("stored_form", |c| {
         c.sit("stored_form");
         let mut rng = Rng::new(5);
-        for n in [0usize, 1, 2, 3, 4, 5, 100, 4096] {
+        let sizes: &[usize] = if cfg!(miri) { &[0, 1, 4, 5] } else { &[0, 1, 2, 3, 4, 5, 100, 4096, 65535, 65536, 65537, 70000, 200_000] };
+        for &n in sizes {
             let d = rng.bytes(n);
             let s = lz::stored(&d);
             c.nontrivial(fnv(&s));
@@ -335,6 +337,35 @@ pub fn run(cx: &mut Ctx) {
         });
     }
     if !miri {
+        // a reference reaching before the start, planted where exactly 4090..=4095 bytes have been
+        // produced, at every position inside a flag group (the window edge of the format)
+        for kind in [Kind::Lz10, Kind::Lz11] {
+            cx.case("backref_before_start_at_window_edge", |c| {
+                c.sit("backref_before_start_at_window_edge");
+                for produced in 4090usize..=4095 {
+                    for slot in 0..8usize {
+                        // ntok tokens before the bad one, ntok % 8 == slot: (ntok-1) literals + one reference of length l
+                        let l = (3..=18usize).find(|l| (produced - l + 1) % 8 == slot).unwrap();
+                        let nlit = produced - l;
+                        let mut toks: Vec<Tok> = (0..nlit).map(|i| Tok::Lit((i * 7 % 251) as u8)).collect();
+                        toks.push(Tok::Ref(l, 1.max(l.min(nlit))));
+                        for disp in [produced + 1, 4096] {
+                            if disp > 4096 || disp <= produced {
+                                continue;
+                            }
+                            let mut t = toks.clone();
+                            t.push(Tok::Ref(5, disp));
+                            t.push(Tok::Lit(1));
+                            let s = lz::encode(kind, &t, produced + 5 + 1);
+                            check(c, &s, &format!("reference {} back with {} bytes produced, token slot {}", disp, produced, slot));
+                            if kind == Kind::Lz11 {
+                                check(c, &lz::wrap13(&s), "wrapped, reference before start at the window edge");
+                            }
+                        }
+                    }
+                }
+            });
+        }
         cx.case("lz11_longest_forms", |c| {
             // lengths the library's compressor never emits: 4097..=65808
             let mut toks = vec![Tok::Lit(7), Tok::Lit(9)];
